@@ -13,6 +13,7 @@ def S(c): return 'S %d' % c
 STD = [('std', 'debug')]
 ALL3 = [('std', 'debug'), ('alloc', 'debug'), ('none', 'debug')]
 ALL6 = ALL3 + [('std', 'release'), ('alloc', 'release'), ('none', 'release')]
+QUICK4 = ALL3 + [('none', 'release')]      # release differs from debug by more than speed: overflow wraps, debug_assert! bodies vanish
 
 def scale(tier, q, t): return q if tier == 'quick' else t
 
